@@ -54,6 +54,9 @@ pub fn pref_space() -> Vec<(&'static str, Vec<String>)> {
         ("NavMode", s(&["Enhanced", "Simple", "Character"])),
         ("Chemistry", s(&["SpellOut", "Off"])),
         ("DecimalSeparator", s(&["Auto", ".", ","])),
+        // the derived pair can also be set directly (and one of them alone)
+        ("DecimalSeparators", s(&[".", ","])),
+        ("BlockSeparators", s(&[", \u{a0}\u{202f}", ". \u{a0}\u{202f}", " \u{a0}\u{202f}"])),
         ("MathRate", s(&["100", "150"])),
         ("PauseFactor", s(&["100", "50"])),
         ("CheckRuleFiles", s(&["Prefs", "All", "None"])),
@@ -73,6 +76,8 @@ fn expression() -> BoxedStrategy<String> {
         4 => tok_ident(),
         3 => "[0-9]{1,3}(\\.[0-9]{1,2})?".prop_map(|s| MNode::mn(&s)),
         1 => "[0-9]{1,3},[0-9]{3}".prop_map(|s| MNode::mn(&s)),
+        // a number split over several tokens: whether it is folded depends on the separator preferences
+        1 => ("[0-9]{1,3}", sel(&[",", "."]), "[0-9]{2,3}").prop_map(|(a, sep, b)| MNode::row(vec![MNode::mn(&a), MNode::mo(sep), MNode::mn(&b)])),
         1 => one_char_of("ϕϑϵ∞ℝ").prop_map(|s| MNode::mi(&s)),
     ]
     .boxed();
@@ -192,6 +197,17 @@ impl C10 {
             }
             transcript.push(format!("target {}={}", k, v));
         }
+        // DecimalSeparators / BlockSeparators are also *computed* whenever Language or DecimalSeparator changes value, so
+        // the same sequence of assignments can end in different values for them depending on what was set before.
+        // "The same preferences" means the same values: both sessions finish by setting the pair to what it reads here.
+        let mut effective_target = case.target.clone();
+        let mut pinned: Vec<(String, String)> = vec![];
+        for k in ["DecimalSeparators", "BlockSeparators"] {
+            if let Ok(v) = api::get_pref(k) {
+                effective_target.push((k.to_string(), v.clone()));
+                pinned.push((k.to_string(), v));
+            }
+        }
         let tr = |t: &Vec<String>| t.join("\n  ");
         let canon_raw = match api::set_mathml(&case.expr) {
             Ok(c) => c,
@@ -202,7 +218,7 @@ impl C10 {
         let lang = case.target.iter().find(|(k, _)| k == "Language").map(|(_, v)| v.clone()).unwrap_or_default();
         let code = case.target.iter().find(|(k, _)| k == "BrailleCode").map(|(_, v)| v.clone()).unwrap_or_default();
         // canonical MathML
-        match reference(&case.target, &case.expr, None) {
+        match reference(&effective_target, &case.expr, None) {
             Err(why) => return Outcome::reject(&why.chars().take(60).collect::<String>()),
             Ok(want) => {
                 let got = Out::Ok(normalize_ids(&canon_raw, &canon_raw));
@@ -219,7 +235,7 @@ impl C10 {
             };
             let want = match refs.get(&(which % 3)) {
                 Some(w) => w.clone(),
-                None => match reference(&case.target, &case.expr, Some(which)) {
+                None => match reference(&effective_target, &case.expr, Some(which)) {
                     Ok(w) => {
                         refs.insert(which % 3, w.clone());
                         w
@@ -248,7 +264,7 @@ impl C10 {
         // away-and-back
         if viols.is_empty() {
             for (k, other, g) in &case.toggles {
-                let Some(orig) = case.target.iter().rev().find(|(kk, _)| kk == k).map(|(_, v)| v.clone()) else { continue };
+                let Some(orig) = effective_target.iter().rev().find(|(kk, _)| kk == k).map(|(_, v)| v.clone()) else { continue };
                 if &orig == other {
                     continue;
                 }
@@ -258,6 +274,12 @@ impl C10 {
                 let _ = getter(*g, &canon_raw);
                 if api::set_pref(k, &orig).is_err() {
                     return Outcome::reject("cannot toggle back");
+                }
+                // "back" restores the whole assignment, including the computed pair
+                for (pk, pv) in &pinned {
+                    if pk != k && api::set_pref(pk, pv).is_err() {
+                        return Outcome::reject("cannot toggle back");
+                    }
                 }
                 transcript.push(format!("toggle {} -> {} ({}) -> {}", k, other, getter_name(*g), orig));
                 classes.push(format!("toggle:{}", k));
@@ -331,7 +353,7 @@ impl Property for C10 {
         300
     }
     fn rule(&self) -> String {
-        "cases = a history of 0..24 (thorough 40) calls (preference changes over 22 preferences incl. Language, SpeechStyle, BrailleCode, TTS, separators, CheckRuleFiles; other expressions; speech / braille / overview getters; navigation commands; braille cursor routing), then a target assignment of all 22 preferences in a generated order, set_mathml(E), getters in generated order and multiplicity, and up to 2 away-and-back toggles of a preference with a getter called while away; 1 in 6 cases (thorough 1 in 3) run beside 1-3 independent sessions in other threads; oracle = the MathML returned by set_mathml (ids normalised) and every getter result are byte-identical to a fresh session that establishes the same assignment in the same order, sets E and calls that one getter once; non-trivial = history changes language, style or braille code, sets >= 1 earlier expression and calls >= 2 getters".into()
+        "cases = a history of 0..24 (thorough 40) calls (preference changes over 24 preferences incl. Language, SpeechStyle, BrailleCode, TTS, separators, CheckRuleFiles; other expressions; speech / braille / overview getters; navigation commands; braille cursor routing), then a target assignment of all 24 preferences in a generated order, set_mathml(E), getters in generated order and multiplicity, and up to 2 away-and-back toggles of a preference with a getter called while away; 1 in 6 cases (thorough 1 in 3) run beside 1-3 independent sessions in other threads; oracle = the MathML returned by set_mathml (ids normalised) and every getter result are byte-identical to a fresh session that establishes the same assignment in the same order, sets E and calls that one getter once; non-trivial = history changes language, style or braille code, sets >= 1 earlier expression and calls >= 2 getters".into()
     }
     fn assumptions(&self) -> Vec<String> {
         vec!["interleavings with other threads are sampled, not explored: all MathCAT state is thread-local, the concurrent sessions only confirm that".into(), "an expression is canonicalised with the preferences current at set_mathml time (documented limitation): outputs are only observed while the target assignment is in force".into()]
